@@ -128,6 +128,9 @@ func segmentStream(rng *rand.Rand, s []byte) [][]byte {
 }
 
 func parseCaseLine(conn, endErr, ewl bool, cfg, stop string, chunks [][]byte) string {
+	if conn && strings.HasPrefix(cfg, "c:") && (len(cfg)+len(chunks))%2 == 0 {
+		cfg += ":w" // the stream goes to the connection's second attempt: Connection.Buffer holds for every attempt
+	}
 	return fmt.Sprintf("PARSE %s %s %s %s %s - %s", b01(conn), b01(endErr), b01(ewl), cfg, stop, hxList(chunks))
 }
 
